@@ -403,6 +403,7 @@ impl MarshalledMessageBody {
         self.sig.clear();
         self.buf.clear();
         self.buf_offset = 0;
+        self.raw_fds.clear();
     }
 
     /// Reserves space for `additional` bytes in the internal buffer. This is useful to reduce the amount of allocations done while marshalling,
